@@ -657,6 +657,38 @@ Fixpoint check_all_res (log : list (nat * N * N)) (ex : option (reason * N)) (lf
   | _, _ => false
   end.
 
+(* the handle-result clauses WITHOUT "cancelled only if an abort was issued" (that one needs the
+   scenario's abort book-keeping): proved of every model run, C12_oracle_sound_results *)
+Definition check_res_safe (log : list (nat * N * N)) (ex : option (reason * N)) (lf : option N) (i : nat) (ti : tinfo) (r : hres) : bool :=
+  (match r with
+   | HOk => kind_eqb (ti_kind ti) KAfter
+   | HErr => kind_eqb (ti_kind ti) KAfter && Nat.eqb (length (ks_of i log)) 0
+   | HUnit => negb (kind_eqb (ti_kind ti) KAfter)
+   | HCancelled => true
+   | HPending => true
+   | HPanic => false
+   end)
+  && (match ex, ti_kind ti, r with
+      | Some (_, te), KAfter, HOk => ti_born ti + ti_dur ti <=? te
+      | _, _, _ => true
+      end)
+  && (match lf, ti_kind ti, r with
+      | Some tl, KAfter, HOk => ti_born ti + ti_dur ti <=? tl
+      | _, _, _ => true
+      end)
+  && is_prefix_from 1 (ks_of i log).
+
+Fixpoint check_all_res_safe (log : list (nat * N * N)) (ex : option (reason * N)) (lf : option N) (i : nat)
+         (tis : list tinfo) (rs : list hres) : bool :=
+  match tis, rs with
+  | [], [] => true
+  | ti :: tis', r :: rs' => check_res_safe log ex lf i ti r && check_all_res_safe log ex lf (S i) tis' rs'
+  | _, _ => false
+  end.
+
+Definition check_C12_results (ops : list op) (o : obs) : bool :=
+  check_all_res_safe (o_log o) (o_exit o) (o_left o) 0 (scan ops 0 []) (o_res o).
+
 (* interval tasks end within one period (rounded to the wheel granularity) of the moment the
    target left the active states *)
 Definition check_probe (tis : list tinfo) (lf : option N) (p : N * bool * list bool) : bool :=
